@@ -34,21 +34,23 @@ import (
 var denoms = []string{"uband", "ufee"}
 
 type caseT struct {
-	app    *fx.App
-	ctx    sdk.Context
-	tr     *fx.Trace
-	r      *fx.Rng
-	g      *tssfx.Group
-	tms    tsstypes.MsgServer
-	bms    bandtsstypes.MsgServer
-	reqs   []bandtesting.Account
-	tokens map[string]int // hex(PubD) -> token
-	next   int
-	height int64
-	now    int64
-	fee    []int64
-	faults bool   // inject malformed nonce pairs in about a third of the cases
-	orid   uint64 // oracle request ids used by oracleSigning
+	quietUntil int64 // no signature is submitted up to this height
+	forceID    int   // when non-zero, the member the next nonce operations are about
+	app        *fx.App
+	ctx        sdk.Context
+	tr         *fx.Trace
+	r          *fx.Rng
+	g          *tssfx.Group
+	tms        tsstypes.MsgServer
+	bms        bandtsstypes.MsgServer
+	reqs       []bandtesting.Account
+	tokens     map[string]int // hex(PubD) -> token
+	next       int
+	height     int64
+	now        int64
+	fee        []int64
+	faults     bool   // inject malformed nonce pairs in about a third of the cases
+	orid       uint64 // oracle request ids used by oracleSigning
 }
 
 func coinsOf(amt []int64) sdk.Coins {
@@ -159,8 +161,16 @@ func (c *caseT) emit(m fx.M, errS string) {
 	c.tr.Op(m)
 }
 
-func (c *caseT) submitDE() {
+func (c *caseT) pickID() int {
 	id := c.r.Range(1, int(c.g.N))
+	if c.forceID != 0 {
+		id = c.forceID
+	}
+	return id
+}
+
+func (c *caseT) submitDE() {
+	id := c.pickID()
 	k := c.r.PickInt(1, 1, 2, 3, 5)
 	des := c.g.NewDEs(id, k)
 	msg := &tsstypes.MsgSubmitDEs{DEs: des, Sender: c.g.Addr(id).String()}
@@ -177,7 +187,7 @@ func (c *caseT) submitDE() {
 // badDE puts a malformed nonce pair at the tail of a member's queue through the keeper API (MsgSubmitDEs
 // validates the points, so this is fault injection: a signing creation that fails after the dequeue).
 func (c *caseT) badDE() {
-	id := c.r.Range(1, int(c.g.N))
+	id := c.pickID()
 	bad := make([]byte, 33)
 	bad[0] = 0x05
 	bad[31] = byte(c.next >> 8)
@@ -193,7 +203,7 @@ func (c *caseT) badDE() {
 }
 
 func (c *caseT) resetDE() {
-	id := c.r.Range(1, int(c.g.N))
+	id := c.pickID()
 	msg := &tsstypes.MsgResetDE{Sender: c.g.Addr(id).String()}
 	e := fx.Atomically(c.ctx, func(ctx sdk.Context) error { _, err := c.tms.ResetDE(ctx, msg); return err })
 	c.emit(fx.M{"op": "resetDE", "member": id}, e)
@@ -463,10 +473,29 @@ func RunCase(app *fx.App, tr *fx.Trace, r *fx.Rng) {
 			c.resetDE()
 		case x < 12:
 			c.request()
+			if r.Chance(1, 3) {
+				// a second signing in the same block: both attempts expire in the same end-block and are retried one after
+				// the other there (each retry on its own branch of the state)
+				c.request()
+				if c.faults && r.Chance(1, 2) {
+					// one member's queue becomes [malformed pair, good pair]: the first retry that reaches it fails after it
+					// has taken other members' nonces; the second one must start from the state before the first
+					c.forceID = r.Range(1, int(c.g.N))
+					c.resetDE()
+					c.badDE()
+					c.submitDE()
+					c.forceID = 0
+					c.quietUntil = c.height + int64(c.app.TSSKeeper.GetParams(c.ctx).SigningPeriod) + 1
+				}
+			}
 		case x < 14:
 			c.oracleSigning()
 		case x < 27:
-			c.submit()
+			if c.height <= c.quietUntil {
+				c.endBlock() // nobody signs: the two signings of the directed situation time out together
+			} else {
+				c.submit()
+			}
 		case x < 36:
 			c.endBlock()
 		case x < 39:
